@@ -31,6 +31,11 @@ CLAIMS = {
    "the pinned code is refuted by three witnesses (F05). Tie: sequences of <= 4 real search() calls (RandomSearch / CBO-DUMMY, serial and thread backends) with a counting run-function: the extracted oracle ok_history decides the statement, "
    "and the model's prediction of the number of new evaluations from the observed gather sizes must equal the observed number.",
    note="gather('BATCH',1) returning between 1 and in-flight jobs is assumed here (proved/checked by C01); wall-clock makes timed calls uncounted (only the calls after them are)."),
+ "C09": dict(cat="proof", text="Coq theorems over a rational model of every dimension kind / prior / transform with the binary64 rounding R, log10 and base**x as universally quantified oracles: exact round trip for exact arithmetic (any number of rows), "
+   "Integer (uniform) and Categorical values round-trip exactly under ANY admissible rounding (relative error <= 2^-52, magnitudes <= 2^47), every round-tripped / decoded point is a member of the space for ANY R, lg, pw (repaired code with the Real clip), shapes, transformed values inside transformed_bounds for monotone R; "
+   "pinned code refuted by witnesses (F02 no clip, F13 Identity rows). PARTIAL: Integer log-uniform exactness only under an explicit accuracy hypothesis on pow/log10 (C09_int_any_prior_partial). "
+   "Tie: functional correspondence (model run on numpy's own log/pow values as tables) + extracted oracle ok_C09 (proved equivalent to Spec_C09) on the implementation's exact float values, on generated dimensions, spaces and HpProblem conversions.",
+   note="libm log10/pow and binary64 rounding are oracles (tolerances of 4-16 ulp scaled by the condition number on the log path, defined in c09.py); sklearn LabelBinarizer / numpy round, clip trusted."),
  "C11": dict(cat="proof", text="Coq theorems (all point sets, all visiting orders, no bound): the sweep model selects exactly one copy of every minimal vector "
    "(sound, complete, unique), the result does not depend on the visiting order, the peeled fronts partition the input, ranked(req) has min(n,req) points taken front by front. "
    "Tied to the code by functional correspondence (value sets) and by the extracted Coq oracles ok_nds/ok_ranked (reflection lemmas proved) applied to the implementation's "
